@@ -19,7 +19,7 @@ static std::string op_brief(const OpResult& o)
 static Plan gen_c06(uint64_t seed, int64_t index, bool thorough)
 {
     Rng rng(hash_seed(seed, "C06", index));
-    std::vector<std::string> pk = keys_for({ "G1", "G2", "G3", "G4", "G5", "G6", "G7", "G8", "G9", "G10", "G11", "G12", "G13", "T1" });
+    std::vector<std::string> pk = keys_for({ "G1", "G2", "G3", "G4", "G5", "G6", "G7", "G8", "G9", "G10", "G11", "G12", "G13", "G14", "T1" });
     std::vector<std::string> rk = regex_keys();
     PlanOp op;
     std::string mode;
@@ -329,7 +329,7 @@ static std::vector<Violation> case_c09(const Plan& p, CaseCtx& cx)
 static Plan gen_c10(uint64_t seed, int64_t index, bool thorough)
 {
     Rng rng(hash_seed(seed, "C10", index));
-    std::vector<std::string> pk = keys_for({ "G1", "G2", "G4", "G4", "G5", "G5", "G7", "G9", "G9", "G10", "G10", "G11", "G12", "G13", "T1" }, false);
+    std::vector<std::string> pk = keys_for({ "G1", "G2", "G4", "G4", "G5", "G5", "G7", "G9", "G9", "G10", "G10", "G11", "G12", "G13", "G14", "T1" }, false);
     std::string key = rng.pick(pk);
     const ref::Model* m = model_for(grammar_of(key));
     OpShape sh;
@@ -357,6 +357,19 @@ static Plan gen_c10(uint64_t seed, int64_t index, bool thorough)
     }
     else if (k < 80) { mode = "token_faults"; add_token_faults(op, rng, rng.range(1, 3), *m); }
     else { mode = "byte_faults"; add_byte_faults(op, rng, rng.range(1, 2), m); }
+    if (rng.chance(1, 120) && !op.toks.empty() && op.skip_ws)
+    {
+        // positions beyond 16 bits: tens of thousands of lines, or a column past 65535 on one line
+        mode = "far_positions";
+        op.buffer = rng.chance(1, 2) ? BUF_STRING : BUF_VIEW;
+        op.faults.clear();
+        uint64_t how = rng.below(3);
+        size_t at = size_t(rng.below(op.toks.size()));
+        if (how == 0) { if (op.skip_nl) op.toks[at].ws.assign(size_t(65530 + rng.below(600)), '\n'); else op.toks[at].ws.assign(size_t(65530 + rng.below(600)), ' '); }
+        else if (how == 1) op.toks[at].ws.assign(size_t(65530 + rng.below(600)), ' ');
+        else if (!stretch_one_lexeme(op, rng, *m, size_t(65530 + rng.below(600)))) op.toks[at].ws.assign(70000, ' ');
+        if (rng.chance(1, 2)) add_token_faults(op, rng, 1, *m);      // and an error message out there
+    }
     return single_op_plan("C10", seed, index, mode, op);
 }
 
@@ -447,7 +460,7 @@ static std::vector<Violation> case_c10(const Plan& p, CaseCtx& cx)
 static Plan gen_c08(uint64_t seed, int64_t index, bool thorough)
 {
     Rng rng(hash_seed(seed, "C08", index));
-    std::vector<std::string> pk = keys_for({ "G1", "G1", "G6", "G7", "G7", "G11", "G11", "G13", "G13", "T1" });
+    std::vector<std::string> pk = keys_for({ "G1", "G1", "G6", "G7", "G7", "G11", "G11", "G13", "G13", "G14", "T1" });
     std::string key = rng.pick(pk);
     const ref::Model* m = model_for(grammar_of(key));
     OpShape sh;
@@ -532,7 +545,7 @@ static bool c08_compare(const Plan& p, const OpResult& o, const ref::RefResult& 
 // nonterminal, so observation O1 cannot touch them): for these the recovery outcome is ALSO judged against the
 // canonical construction, so that a table that stops offering the error symbol where the grammar says it can be
 // accepted is reported. The other recovery grammars (G1) are judged over the parser's own table only.
-static bool canonical_recovery_grammar(const std::string& g) { return g == "G6" || g == "G7" || g == "G11" || g == "G13" || g == "T1"; }
+static bool canonical_recovery_grammar(const std::string& g) { return g == "G6" || g == "G7" || g == "G11" || g == "G13" || g == "G14" || g == "T1"; }
 
 static std::vector<Violation> case_c08(const Plan& p, CaseCtx& cx)
 {
